@@ -53,6 +53,10 @@ CONFIG = {
         "extraction_source back-references are documented and excluded from the identity walk",
         "high-level mutators used as 'later changes' (reroot, prune, ladderize, ...) may raise on inputs outside their "
         "own domain; the non-interference verdict is evaluated regardless",
+        "source objects may be trees produced by extract_tree / extract_tree_with_taxa (alone, or in a list next to the tree "
+        "they were extracted from, in either order); their extraction_source back-references are part of the object: a deep or "
+        "scoped copy must not reach any live node of the source tree through them",
+        "the namespace may hold no taxon at all at copy time (trees whose nodes carry labels only, empty lists and matrices)",
         "DataSet is excluded (documented as not copyable); trees have <= 40 leaves (deepcopy recursion is linear in depth)",
     ],
 }
@@ -226,6 +230,11 @@ def tree_cases(draw, max_leaves, route=None):
     route = route or draw(st.sampled_from(TREE_ROUTES))
     if route != "ctor_ns":
         obj["relabel"] = draw(relabels(shapes.n_leaves(obj["spec"])))
+    special = draw(st.integers(0, 7))
+    if special == 7:
+        obj["empty_ns"] = True
+    elif special >= 5:
+        obj["extracted"] = {"with_taxa": draw(B), "mask": draw(SEL)}
     case = {"obj": obj, "route": route, "mut": draw(muts(TREE_MUTS))}
     if route == "ctor_ns":
         case["foreign"] = draw(foreign_ns(shapes.n_leaves(obj["spec"])))
@@ -247,6 +256,11 @@ def list_cases(draw, max_leaves, route=None):
     route = route or draw(st.sampled_from(LIST_ROUTES))
     if route != "ctor_ns":
         obj["relabel"] = draw(relabels(n))
+    special = draw(st.integers(0, 7))
+    if special == 7:
+        obj["empty_ns"] = True
+    elif special >= 4 and trees:
+        trees[draw(st.integers(0, len(trees) - 1))]["pair"] = {"before": draw(B), "with_taxa": draw(B), "mask": draw(SEL)}
     case = {"obj": obj, "route": route, "mut": draw(muts(LIST_MUTS)), "tmut": draw(muts(TREE_MUTS)),
             "newtree": draw(tree_objects(min(4, max_leaves), n_taxa=n, internal_pool=spare_taxa(hist, n)))}
     if route == "ctor_ns":
@@ -278,6 +292,8 @@ def matrix_cases(draw, max_taxa, max_cols, route=None):
     route = route or draw(st.sampled_from(MATRIX_ROUTES))
     if route != "ctor_ns":
         obj["relabel"] = draw(relabels(n))
+    if draw(st.integers(0, 7)) == 7:
+        obj["empty_ns"] = True
     case = {"obj": obj, "route": route, "mut": draw(muts(MATRIX_MUTS))}
     if route == "ctor_ns":
         case["foreign"] = draw(foreign_ns(n))
@@ -336,6 +352,9 @@ def has_decor(dec):
 
 
 def build_ns(obj, **kw):
+    if obj.get("empty_ns"):
+        # a namespace without any taxon at copy time (collection cloned before being filled, tree with labels only)
+        obj = dict(obj, hist=EMPTY_HIST, xdec=[], relabel=[])
     ns, taxa, bits = shapes.build_namespace(obj["hist"], **kw)
     if obj.get("nslabel") is not None:
         ns.label = obj["nslabel"]
@@ -377,10 +396,38 @@ def label_classes(ns):
     return out or ["labels_unique"]
 
 
-def build_tree_obj(obj, ns=None, taxa=None):
+EMPTY_HIST = {"extra": 0, "order": [], "removed": [], "sort": None}
+
+
+def strip_taxa(spec):
+    """The same shape with no taxa at all: former taxon nodes carry a label instead."""
+    return {"t": None, "lab": spec["lab"] if spec["t"] is None else "L%d" % spec["t"], "len": spec["len"],
+            "ch": [strip_taxa(c) for c in spec["ch"]]}
+
+
+def extract_from(tree, how):
+    """A tree produced by extract_tree / extract_tree_with_taxa: its nodes carry `extraction_source` references to the
+    nodes of `tree`.  how = {"with_taxa": bool, "mask": int}"""
+    leaf_taxa = []
+    for nd in snapshot(tree)[0].obj:
+        if not nd._child_nodes and nd.taxon is not None:
+            leaf_taxa.append(nd.taxon)
+    if how.get("with_taxa") and leaf_taxa:
+        keep = [t for k, t in enumerate(leaf_taxa) if (how["mask"] >> (k % 16)) & 1] or leaf_taxa[:1]
+        return tree.extract_tree_with_taxa(keep)
+    return tree.extract_tree()
+
+
+def build_tree_obj(obj, ns=None, taxa=None, empty_ns=False):
     if ns is None:
         ns, taxa = build_ns(obj)
-    tree = shapes.build_tree(obj["spec"], ns, taxa, is_rooted=obj["rooted"])
+    spec = strip_taxa(obj["spec"]) if (empty_ns or obj.get("empty_ns")) else obj["spec"]
+    tree = shapes.build_tree(spec, ns, taxa, is_rooted=obj["rooted"])
+    if obj.get("extracted"):
+        for k, lab in obj.get("elabels", []):
+            nds = snapshot(tree)[0].obj
+            nds[k % len(nds)]._edge.label = lab
+        tree = extract_from(tree, obj["extracted"])
     if obj.get("label") is not None:
         tree.label = obj["label"]
     if obj.get("weight") is not None:
@@ -428,7 +475,15 @@ def build_treelist_obj(obj):
     ns, taxa = build_ns(obj)
     tl = dendropy.TreeList(taxon_namespace=ns, label=obj.get("label"))
     for tobj in obj["trees"]:
-        tl.append(build_tree_obj(tobj, ns, taxa))
+        t = build_tree_obj(tobj, ns, taxa, empty_ns=bool(obj.get("empty_ns")))
+        pair = tobj.get("pair")
+        if pair:
+            # the list holds a tree together with a tree extracted from it, in either order
+            ext = extract_from(t, pair)
+            for x in ([ext, t] if pair["before"] else [t, ext]):
+                tl.append(x)
+        else:
+            tl.append(t)
     decorate(tl, obj.get("ldec"), nodes=list(tl._trees) or None)
     return tl, taxa
 
@@ -474,7 +529,7 @@ def build_matrix_obj(obj):
     kit = Kit(obj["dtype"])
     m = kit.new_matrix(ns, obj.get("label"))
     rows = []
-    for i, cells in obj["rows"]:
+    for i, cells in ([] if obj.get("empty_ns") else obj["rows"]):
         m[taxa[i]] = [kit.value(c) for c in cells]
         rows.append(taxa[i])
     decorate(m, obj.get("mdec"))
@@ -939,6 +994,10 @@ def check_tree(ctx, case):
     ctx.cls("side:" + side)
     if obj.get("enc"):
         ctx.cls("tree_encoded")
+    if obj.get("empty_ns"):
+        ctx.cls("tree_special:namespace_empty_at_copy_time")
+    if obj.get("extracted"):
+        ctx.cls("tree_special:source_is_an_extracted_tree(%s)" % ("with_taxa" if obj["extracted"]["with_taxa"] else "whole"))
     if tree_is_interesting(obj):
         ctx.nontrivial(["tree", obj, route, case.get("foreign"), case.get("su"), case.get("esr"), mut])
     ctx.sample("tree:" + route, {"newick": shapes.spec_to_newick(obj["spec"]), "tdec": obj["tdec"], "enc": obj.get("enc"),
@@ -1022,7 +1081,8 @@ def mutate_list(ctx, tl, case, tag, taxa=None):
     ns = tl._taxon_namespace
     k = len(tl._trees)
     def newtree():
-        return build_tree_obj(case["newtree"], ns, taxa if taxa is not None else taxa_by_index(ns))
+        return build_tree_obj(case["newtree"], ns, taxa if taxa is not None else taxa_by_index(ns),
+                              empty_ns=bool(case["obj"].get("empty_ns")))
     if kind == "tree" and k:
         applied, nslevel = mutate_tree(ctx, tl._trees[sel2 % k], case["tmut"], tag)
         return "tree." + applied, nslevel
@@ -1135,6 +1195,11 @@ def check_list(ctx, case):
     if applied != mut["kind"] and not applied.startswith("tree."):
         ctx.cls("fallback_from:list:" + mut["kind"])
     ctx.cls("list_size:%d" % len(obj["trees"]))
+    if obj.get("empty_ns"):
+        ctx.cls("list_special:namespace_empty_at_copy_time")
+    for t in obj["trees"]:
+        if t.get("pair"):
+            ctx.cls("list_special:extract_%s_its_source_tree" % ("before" if t["pair"]["before"] else "after"))
     if interesting:
         ctx.nontrivial(["treelist", obj, route, case.get("foreign"), mut, case["tmut"] if applied.startswith("tree.") else None])
     ctx.sample("treelist:" + route, {"trees": [shapes.spec_to_newick(t["spec"]) for t in obj["trees"]], "ldec": obj["ldec"],
@@ -1294,6 +1359,8 @@ def check_matrix(ctx, case):
     if applied != mut["kind"]:
         ctx.cls("fallback_from:matrix:" + mut["kind"])
     ctx.cls("matrix_type:" + obj["dtype"])
+    if obj.get("empty_ns"):
+        ctx.cls("matrix_special:namespace_empty_at_copy_time")
     if interesting:
         ctx.nontrivial(["matrix", obj, route, case.get("foreign"), mut])
     ctx.sample("matrix:" + route, {"dtype": obj["dtype"], "rows": obj["rows"], "mdec": obj["mdec"], "route": route, "mut": mut})
@@ -1461,6 +1528,21 @@ def exhaustive_items(sels):
                     items.append({"what": "tree", "route": route, "mut": mut(side, kind, sel)})
                     if route != "ctor_ns":
                         items.append({"what": "tree", "route": route, "mut": mut(side, kind, sel), "relabel": FIXED_RELABEL})
+                for variant in ("empty_ns", "extracted_whole", "extracted_with_taxa"):
+                    for kind in ("add_child", "remove_child", "edge_length", "bound_attr", "ns_add_taxon", "taxon_label", "encode"):
+                        items.append({"what": "tree", "route": route, "mut": mut(side, kind, sel), "variant": variant})
+            for route in LIST_ROUTES:
+                for variant in ("empty_ns", "no_trees_empty_ns", "pair_before", "pair_after"):
+                    for kind in ("append_tree", "list_label"):
+                        items.append({"what": "treelist", "route": route, "mut": mut(side, kind, sel), "variant": variant})
+                    for tkind in ("add_child", "remove_child", "edge_length"):
+                        for tsel in (0, 3):
+                            m2 = mut(side, "tree", sel)
+                            m2["sel2"] = tsel // 3 + (sel % 2)
+                            items.append({"what": "treelist", "route": route, "mut": m2, "tmut": mut(side, tkind, sel), "variant": variant})
+            for route in MATRIX_ROUTES:
+                for kind in ("m_label", "new_subset", "m_ann_value"):
+                    items.append({"what": "matrix", "route": route, "mut": mut(side, kind, sel), "variant": "empty_ns"})
             for route in LIST_ROUTES:
                 for kind in sorted(set(LIST_MUTS) - {"tree"}):
                     items.append({"what": "treelist", "route": route, "mut": mut(side, kind, sel)})
@@ -1478,12 +1560,26 @@ def exhaustive_items(sels):
 def check_exh(ctx, item):
     what, route = item["what"], item["route"]
     case = {"route": route, "mut": item["mut"], "foreign": FIXED_FOREIGN, "su": True, "esr": bool(item["mut"]["sel"] & 2)}
+    variant = item.get("variant")
     if what == "tree":
-        check_tree(ctx, dict(case, obj=dict(FIXED_TREE, relabel=item["relabel"]) if item.get("relabel") else FIXED_TREE))
+        obj = dict(FIXED_TREE, relabel=item["relabel"]) if item.get("relabel") else FIXED_TREE
+        if variant == "empty_ns":
+            obj = dict(obj, empty_ns=True)
+        elif variant:
+            obj = dict(obj, extracted={"with_taxa": variant == "extracted_with_taxa", "mask": 0b1011})
+        check_tree(ctx, dict(case, obj=obj))
     elif what == "treelist":
-        check_list(ctx, dict(case, obj=FIXED_LIST, tmut=item.get("tmut", item["mut"]), newtree=FIXED_SMALL_TREE))
+        obj = FIXED_LIST
+        if variant == "empty_ns":
+            obj = dict(obj, empty_ns=True)
+        elif variant == "no_trees_empty_ns":
+            obj = dict(obj, empty_ns=True, trees=[])
+        elif variant:
+            obj = dict(obj, trees=[dict(_LIST_TREE, pair={"before": variant == "pair_before", "with_taxa": bool(item["mut"]["sel"] & 1),
+                                                          "mask": 0b0111}), FIXED_SMALL_TREE])
+        check_list(ctx, dict(case, obj=obj, tmut=item.get("tmut", item["mut"]), newtree=FIXED_SMALL_TREE))
     elif what == "matrix":
-        check_matrix(ctx, dict(case, obj=FIXED_MATRIX))
+        check_matrix(ctx, dict(case, obj=dict(FIXED_MATRIX, empty_ns=True) if variant == "empty_ns" else FIXED_MATRIX))
     else:
         check_ns(ctx, dict(case, obj=FIXED_NS))
 
